@@ -259,6 +259,7 @@ inductive WEv where
   | gone                             -- the flusher goroutine returned
   | ret (id n : Nat) (cls : String)  -- writeContext returned (n, err): ok | cancel (ctx error) | quit (io.EOF / ErrConnectionClosed) | err
   | fin                              -- end of the scenario: quit and socket closed, every held Write ended
+  | stillWaiting (id : Nat)          -- at quiescence after `Q`: the caller is still parked in writeContext's first select
 
 def parseWEv (s : String) : Option WEv :=
   if s == "t" then some .tick
@@ -273,6 +274,7 @@ def parseWEv (s : String) : Option WEv :=
       | some [a, b] => some (.start a b)
       | _ => none
     | 'a' => body.toNat?.map .entered
+    | 'W' => body.toNat?.map .stillWaiting
     | 'p' => match nums body with
       | some [a, b, c, d] => some (.piece a b c d)
       | _ => none
@@ -307,7 +309,8 @@ def sentOf (m : MSt) (id : Nat) : Nat :=
     Outcomes: `C07_outcome_final` (exactly one), `C07_success_means_whole`, `C07_cancel_before_start_no_bytes`,
     `C07_quit_outcome_means_quit` / `C07_quit_disposition` (a `quit` outcome needs a closed quit channel and leaves no byte),
     `C07_outcome_counts_sent` (n = the bytes of the frame on the wire), `C07_no_writer_left_behind` (at the end everybody
-    has an outcome). -/
+    has an outcome), `C07_waiting_sees_quit` (with quit closed, a caller parked in writeContext's first select can leave:
+    at quiescence none is parked there). -/
 def wstep (coal : Bool) (lens : Nat → Nat) (w : WSt) : WEv → WSt
   | .start id _ => if w.started.contains id then w.reject "started-twice" else { w with started := id :: w.started }
   | .entered id =>
@@ -337,6 +340,7 @@ def wstep (coal : Bool) (lens : Nat → Nat) (w : WSt) : WEv → WSt
       else if cls == "err" then (if n == k then w else w.reject "count-mismatch")
       else w.reject "crash"
   | .fin => if w.started.all fun id => w.m.returned.contains id then w else w.reject "no-outcome"
+  | .stillWaiting _ => w.reject "waiting-after-quit"
 
 def lensOfWEvs (evs : List WEv) : List (Nat × Nat) :=
   evs.filterMap fun
